@@ -48,6 +48,7 @@ def sources(old_kind):
     s["T"] = OLD_SPECS[old_kind]
     if old_kind == "aliased":
         s["X"] = ["tbl", "t1", None, "x2"]
+    s["TT"] = list(OLD_SPECS[old_kind])  # a second object for the same table (self-joins)
     return s
 
 
@@ -100,7 +101,7 @@ def compare(p, old_kind, new_kind, root_is_term):
     new_spec = NEW_SPECS[new_kind]
     try:
         recv = prog.build_program(prog_full)
-        expect = prog.build_program(prog_full, subst={"T": new_spec})
+        expect = prog.build_program(prog_full, subst={"T": new_spec, "TT": list(new_spec)})
     except Exception:
         return [("__build__", "")]
     call_old, call_new = CALL_SPECS.get(old_kind, (OLD_SPECS[old_kind], None))[0], CALL_SPECS.get(new_kind, (None, new_spec))[1]
@@ -366,6 +367,9 @@ def templates(cls):
         "setop": [["from_", [["src", "T"]]], ["select", [A]], ["union", [["q", SUB_T]]]],
         "force_index_for_update": [["from_", [["src", "T"]]], ["select", [A]], ["force_index", [["py", "ix"]]], ["for_update", []]],
     }
+    # a self-join written with two objects for OLD: the second occurrence carries the automatic alias <name>2
+    t["self_join"] = [["from_", [["src", "T"]]], ["join", [["src", "TT"], ["enum", "JoinType", "cross"]], {}, ["cross", []]], ["select", [A, ["col", "TT", "b"]]]]
+    t["self_join_from_twice"] = [["from_", [["src", "T"]]], ["from_", [["src", "TT"]]], ["select", [A, ["col", "TT", "b"]]], ["where", [["eq", A, ["col", "TT", "a"]]]]]
     t.update(XTEMPLATES)
     if cls == "postgresql":
         t["returning"] = [["update", [["src", "T"]]], ["set", [["py", "a"], ["raw", 1]]], ["returning", [A, ["py", "b"]]]]
@@ -499,6 +503,8 @@ def _run_shard(shard):
         cls = arg
         for name, steps in templates(cls).items():
             for old_kind, new_kind in PAIRS:
+                if name.startswith("self_join") and not (old_kind in ("plain", "schema") and new_kind in ("plain", "schema")):
+                    continue  # the automatic alias is for un-aliased tables
                 p = {"cls": cls, "sources": {}, "steps": steps, "kind": "slot:" + name}
                 if name in XTEMPLATES:
                     p["extra_sources"] = XSRC
